@@ -123,7 +123,7 @@ def tab(name, pattern, fname, what):
         tables[name] = table(pattern, fname, what)
     except Missing:
         pass
-tab('prefix_mask', r'prefixmatch\s*\([^)]*\)\s*\{[^}]*?mask\[\]\s*=\s*\{([^}]*)\}', 'radsecproxy.c', 'prefixmatch mask[]')
+tab('prefix_mask', r'prefixmatch\s*\([^)]*\)\s*\{[^}]*?mask\[\]\s*=\s*\{([^}]*)\}', 'hostport.c', 'prefixmatch mask[] (hostport.c)')
 tab('hexdigits', r'hexdigits\[\]\s*=\s*\{([^}]*)\}', 'radsecproxy.c', 'char2hex hexdigits[]')
 
 def lit(name, pattern, fname, what):
